@@ -74,7 +74,7 @@ def race_pairs(tmp, tier, seed, goenv):
 
 
 PROP = {
-    "coq": ["C08"],
+    "coq": ["C08", "C08w"],
     "pre": [regen_locks],
     "extra": [race_pairs],
     "exhaustive": False,
@@ -83,7 +83,16 @@ PROP = {
             "optionally last), 50 iterations per case with Gosched jitter; the fake device checks per Write call: one whole "
             "MBAP frame, no other request outstanding, request content names its address; every caller checks that its reply "
             "names its own request. Separately every pair (also with Close) runs under the race detector. The lock skeleton "
-            "the theorems are about is re-extracted from client.go before the Coq build.",
+            "the theorems are about is re-extracted from client.go before the Coq build. Scenario concslow: the same shared "
+            "client behind a SLOW device (every request answered correctly after 35..60 % of the request timeout, so that "
+            "callers queue for the client longer than the timeout: each of the 30 request methods + SetUnitId + SetEncoding in "
+            "turn is the call that has queued behind at least four exchanges, 6..8 goroutines, each going on with another "
+            "request) and seeded random sets with latencies from 5 % to 150 % of the timeout (the caller gives up, the stale "
+            "reply arrives during a later exchange), Close optionally last: a request is outstanding from its Write call "
+            "until its reply has been taken off the socket or the i/o deadline armed for it has passed (one-sided: no verdict "
+            "depends on the speed of the machine); no request may be written before that, never two goroutines in Read, "
+            "every call returns its own reply or a time-out; the recorded wire events must pass the extracted check "
+            "cw_atomic (Model/ConcWire.v), which accepts the wire of every interleaving of the lock skeleton (theorems C08w).",
     "assumptions": [
         "the Go memory model (an Unlock happens before the next Lock returns) and sync.Mutex are trusted",
         "the extractor harness/cmd/locksum (go/parser + go/ast) is trusted to report every access to the shared fields "
